@@ -118,6 +118,7 @@ static int _my_PyUnicode_AsChar16(PyObject *unicode,
     Py_ssize_t len = PyUnicode_GET_LENGTH(unicode);
     unsigned int kind = PyUnicode_KIND(unicode);
     void *data = PyUnicode_DATA(unicode);
+    cffi_char16_t *result_end = result + resultlen;
     Py_ssize_t i;
 
     for (i = 0; i < len; i++) {
@@ -136,6 +137,8 @@ static int _my_PyUnicode_AsChar16(PyObject *unicode,
         else
             *result++ = ordinal;
     }
+    if (result < result_end)
+        *result = 0;      /* room left: write the terminating zero unit */
     return 0;
 }
 
@@ -143,7 +146,10 @@ static int _my_PyUnicode_AsChar32(PyObject *unicode,
                                   cffi_char32_t *result,
                                   Py_ssize_t resultlen)
 {
+    Py_ssize_t len = PyUnicode_GET_LENGTH(unicode);
     if (PyUnicode_AsUCS4(unicode, (Py_UCS4 *)result, resultlen, 0) == NULL)
         return -1;
+    if (len < resultlen)
+        result[len] = 0;  /* room left: write the terminating zero unit */
     return 0;
 }
